@@ -157,6 +157,24 @@ def check(ctx) -> Result:
     t = src(srs.node)
     okd = "process_random_seed(r_seed)" in t and "default_rng(seed)" in t and "prop.set_random_seed(seed)" in t and "rng.integers(" in t
     res.frozen(okd, "J1-every-distribution-seeded", "ErrorModel._set_random_seed:derivation", srs.site(), srs.qualname, "per-distribution seeds come from one generator seeded with the call's seed", "per-distribution seeds no longer derive from the call's seed", construct="derivation")
+    # ---- decomposition: every unit cell recorded in the phase map is also applied to the running matrix
+    DEC = "lightworks/interferometers/decomposition.py"
+    rd = ctx.func(DEC, "reck_decomposition")
+    cfgd = ctx.cfg(rd)
+    domd = cfgd.dominators()
+    from ..cfg import own_exprs as _oe
+    recs = [n for n in cfgd.nodes if n.kind == "stmt" and isinstance(n.ast, ast.Assign) and isinstance(n.ast.targets[0], ast.Subscript) and src(n.ast.targets[0].value) == "phase_map"]
+    upd = [n for n in cfgd.nodes if n.kind == "stmt" and isinstance(n.ast, ast.Assign) and src(n.ast.targets[0]) == "unitary" and "@" in src(n.ast.value) and "tr_ij" in src(n.ast.value)]
+    trd = [n for n in cfgd.nodes if n.kind == "stmt" and isinstance(n.ast, ast.Assign) and src(n.ast.targets[0]) == "tr_ij" and "bs_matrix(" in src(n.ast.value)]
+    if not recs or not upd or not trd:
+        raise AnalysisError("reck_decomposition: phase-map stores / matrix update not found")
+    targs = [src(a) for a in trd[0].ast.value.args]
+    for r in recs:
+        val = src(r.ast.value)
+        applied = any(u.id in domd[r.id] for u in upd) and any(t.id in domd[r.id] for t in trd) and val in targs[2:4]
+        res.add(applied, "D-recorded-cell-is-applied", f"reck_decomposition:{src(r.ast.targets[0])[:40]}", rd.site(r.ast), rd.qualname, "the (theta, phi) written to the phase map are the ones of the cell multiplied into the running matrix on every path",
+                f"`{src(r.ast)[:70]}` records a unit-cell setting on a path where that cell was not applied to the running matrix (or a different value was applied): the programmed mesh differs from the decomposition", construct=src(r.ast)[:120])
+    res.floor("recorded unit-cell settings", len(recs), 2)
     # ---- Reck.map
     rk = ctx.ix.module(RECK)
     R = rk.classes.get("Reck")
